@@ -109,6 +109,8 @@ type Raw struct {
 	closed    atomic.Bool
 	// HealthStatus is the status answered on /verif-health (default 200).
 	HealthStatus atomic.Int64
+	// HealthDelayMs delays the answer on /verif-health (a slow prober; default 0).
+	HealthDelayMs atomic.Int64
 	// ModelsBody is answered on /verif-models.
 	ModelsBody atomic.Value // string
 	// OnExchange, if set, is called when an exchange starts (after the request is read).
@@ -317,6 +319,9 @@ func (b *Raw) handle(c net.Conn) {
 	if strings.HasSuffix(path, "/verif-health") {
 		atomic.AddInt64(&b.healthHit, 1)
 		st := int(b.HealthStatus.Load())
+		if d := b.HealthDelayMs.Load(); d > 0 {
+			time.Sleep(time.Duration(d) * time.Millisecond)
+		}
 		if st == 0 {
 			return // behave as "closed without answer"
 		}
